@@ -219,8 +219,11 @@ class ClockHarness(Harness):
     xz = zreal(x)
     g = params["group"]
     if g == "value":
-      err = z3.ToReal(ms) - xz * 1000
-      ex.prove(And(err <= RV(Fraction(1, 2)), err >= RV(Fraction(-1, 2))), "C12:clock-nearest-ms")
+      # (1) the result is R(x) = 1000x rounded to the nearest integer, ties to even; (2) |R(x) - 1000x| <= 1/2
+      ex.prove(ms == self._R(xz), "C12:clock-nearest-ms", {"step": "value is R(x)"})
+      rerr = z3.ToReal(self._R(xz)) - xz * 1000
+      ex.prove(And(rerr <= RV(Fraction(1, 2)), rerr >= RV(Fraction(-1, 2))), "C12:clock-nearest-ms", {"step": "R within half a ms"})
+      err = rerr
       ex.prove(And(zint(c.get_milliseconds()) >= 0, zint(c.get_milliseconds()) <= 999, zint(c.get_seconds()) >= 0,
                    zint(c.get_seconds()) <= 59, zint(c.get_minutes()) >= 0, zint(c.get_minutes()) <= 59,
                    zint(c.get_hours()) >= 0), "C12:clock-fields-in-range")
